@@ -228,6 +228,24 @@ func (fs LocalFileSystem) Mkdir(ctx context.Context, name string) error {
 	}
 }
 
+// pathContains reports whether child is parent itself or lies below it.
+func pathContains(parent, child string) bool {
+	rel, err := filepath.Rel(parent, child)
+	return err == nil && rel != ".." && !strings.HasPrefix(rel, ".."+string(filepath.Separator))
+}
+
+// checkCopyMove checks that the source of a COPY or MOVE exists and that
+// neither of the source and the destination contains the other.
+func checkCopyMove(srcPath, dstPath string) error {
+	if _, err := os.Stat(srcPath); err != nil {
+		return errFromOS(err)
+	}
+	if pathContains(srcPath, dstPath) || pathContains(dstPath, srcPath) {
+		return NewHTTPError(http.StatusForbidden, fmt.Errorf("webdav: source and destination overlap"))
+	}
+	return nil
+}
+
 func copyRegularFile(src, dst string, perm os.FileMode) error {
 	srcFile, err := os.Open(src)
 	if err != nil {
@@ -260,8 +278,9 @@ func (fs LocalFileSystem) Copy(ctx context.Context, src, dst string, options *Co
 		return false, err
 	}
 
-	// TODO: "Note that an infinite-depth COPY of /A/ into /A/B/ could lead to
-	// infinite recursion if not handled correctly"
+	if err := checkCopyMove(srcPath, dstPath); err != nil {
+		return false, err
+	}
 
 	srcInfo, err := os.Stat(srcPath)
 	if err != nil {
@@ -317,6 +336,10 @@ func (fs LocalFileSystem) Move(ctx context.Context, src, dst string, options *Mo
 	}
 	dstPath, err := fs.localPath(dst)
 	if err != nil {
+		return false, err
+	}
+
+	if err := checkCopyMove(srcPath, dstPath); err != nil {
 		return false, err
 	}
 
